@@ -234,7 +234,9 @@ def orbit_invariant(b):
                 _all_tidal_world_orbit_index_by_name={"w1": sp.Integer(1), "w2": sp.Integer(2)})
         return o, old, worlds, star
 
-    def check(label, method, argname, via_state, addressing, stellar, stellar_kw=True):
+    def check(label, method, argname, via_state, addressing, stellar, stellar_kw=True, same=False):
+        # same=True: the caller hands the STORED value straight back (world.semi_major_axis = world.semi_major_axis after a mass change); the
+        # stored n / P are arbitrary (no Kepler hypothesis on the old state), so the derived quantities must still be re-derived for the current masses
         for sync in (False, True):
             slot = 0 if stellar else {"index": 1, "instance": 1, "host": 2, "name": 1}[addressing]
             Mprimary = Ms if stellar else Mh
@@ -246,16 +248,20 @@ def orbit_invariant(b):
             mfn = MethodFn(c, node)
             b.functions[mfn.key] = mfn.info()
             holder = {}
+            pre_v = pre + [sp.Gt(val, 0)]
+            if same:   # the stored value that is handed back is a valid one (positive); nothing is assumed about the stored n / P that go with it
+                pre_v = pre_v + [sp.Gt(R({"semi_major_axis": "a", "distance": "a", "orbital_frequency": "n", "orbital_period": "P"}[argname] + f"{slot}_old"), 0)]
 
             def fresh_args():
                 # a fresh object store for every path (the setter mutates the orbit in place)
                 o, old, worlds, star = mk_orbit(sync)
                 sig = {"index": sp.Integer(1), "instance": worlds[1], "host": worlds[0], "name": "w1"}[addressing]
                 env = dict(self=o, world_signature=sig)
-                env[argname] = val
+                key_ = {"semi_major_axis": "a", "distance": "a", "orbital_frequency": "n", "orbital_period": "P"}[argname]
+                env[argname] = old[key_][slot] if same else val
                 if stellar and stellar_kw:
                     env["set_stellar_orbit"] = True
-                holder["st"] = (o, old)
+                holder["st"] = (o, old, env[argname])
                 return env
             ex = Exec(mfn, pre=pre_v, contracts=contracts, globals_env=genv, opts=dict(max_recursion=3, fresh_args=fresh_args, on_path_end=lambda: holder["st"]))
             try:
@@ -269,7 +275,7 @@ def orbit_invariant(b):
             tag = f"{mfn.key}::{label}:sync={int(sync)}"
             for i_, p in enumerate(paths):
                 sfx = f"@path{i_}" if len(paths) > 1 else ""
-                o, old = p.state
+                o, old, val_ = p.state
                 if p.outcome != "return":
                     b.add(Obligation(oid=tag + "::noraise" + sfx, fn=mfn.key, clause="public setter does not raise for a valid single quantity", goal=sp.false, hyps=pre_v + p.hyps, meta=dict(raised=repr(p.value))))
                     continue
@@ -280,7 +286,7 @@ def orbit_invariant(b):
                                  hyps=pre_v + p.hyps, meta=dict(a=str(A[slot]), n=str(N[slot]), P=str(P[slot]), slot=slot, path_condition=[str(c_)[:160] for c_ in p.pc])))
                 given = {"semi_major_axis": A, "distance": A, "orbital_frequency": N, "orbital_period": P}[argname][slot]
                 b.add(Obligation(oid=tag + "::stores_given" + sfx, fn=mfn.key, clause="ensures the quantity the caller gave is the one reported afterwards (the other two are derived from it)",
-                                 goal=sp.Eq(sp.sympify(given), val), hyps=pre_v + p.hyps, meta=dict(stored=str(given))))
+                                 goal=sp.Eq(sp.sympify(given), val_), hyps=pre_v + p.hyps, meta=dict(stored=str(given))))
                 frame = sp.And(*[sp.Eq(X[j], old[k][j]) for X, k in ((A, "a"), (N, "n"), (P, "P")) for j in range(3) if j != slot])
                 b.add(Obligation(oid=tag + "::frame" + sfx, fn=mfn.key, clause="frame: a, n, P of every other slot unchanged", goal=frame, hyps=pre_v + p.hyps))
 
@@ -292,6 +298,9 @@ def orbit_invariant(b):
     for meth, arg in setters:
         check(f"{meth}[host;stellar]", meth, arg, False, "host", True)
         check(f"set_state:{arg}[host;stellar]", "set_state", arg, True, "host", True)
+    for meth, arg in setters:
+        check(f"{meth}[instance;stored value handed back]", meth, arg, False, "instance", False, same=True)
+        check(f"{meth}[host;stellar;stored value handed back]", meth, arg, False, "host", True, same=True)
     # the stellar distance of the tidal host is its semi-major axis about the star (public wrapper; also reached through world.stellar_distance = d)
     check("set_stellar_distance[host;stellar]", "set_stellar_distance", "distance", False, "host", True, stellar_kw=False)
     check("set_stellar_distance[instance;stellar]", "set_stellar_distance", "distance", False, "instance", True, stellar_kw=False)
